@@ -457,13 +457,13 @@ def run_shard(spec, ctx):
                                       'tag': '-invalid-key'})
     # (4) SIGN for every flag (split), sign-then-check in the VM
     for f in range(i, 256, of):
-        for rep in range(2 if ctx.tier == 'quick' else 16):
+        for rep in range(2 if ctx.tier == 'quick' else 64):
             judge_sign(ctx, rng, f, rng.getrandbits(8), f * 31 + rep)
     # (5) stack forms
-    for r in range(40 if ctx.tier == 'quick' else 600):
+    for r in range(40 if ctx.tier == 'quick' else 4000):
         judge_stack_forms(ctx, rng, i + r * of)
     # (6) several signature instructions in one run
-    for r in range(150 if ctx.tier == 'quick' else 3000):
+    for r in range(150 if ctx.tier == 'quick' else 16000):
         judge_sequences(ctx, rng, i + r * of)
 
 
